@@ -104,7 +104,7 @@ func genCodecResult(rng *rand.Rand, crlf bool) vegeta.Result {
 			k := keys[rng.Intn(len(keys))]
 			nv := 1 + rng.Intn(3)
 			for j := 0; j < nv; j++ {
-				r.Headers[k] = append(r.Headers[k], []string{"text/plain; charset=utf-8", "a", "b c", "x=1; Path=/", "W/\"tag\"", "ü", "1,2"}[rng.Intn(7)])
+				r.Headers[k] = append(r.Headers[k], []string{"text/plain; charset=utf-8", "a", "b c", "x=1; Path=/", "W/\"tag\"", "ü", "1,2", "Basic realm=\"Access: restricted\"", "k: v: w", "http://h:80/p"}[rng.Intn(10)])
 			}
 		}
 	}
@@ -246,6 +246,21 @@ func (c *chunkReader) Read(p []byte) (int, error) {
 
 func runC08(idx int, rng *rand.Rand, tier string) []Case {
 	formats := []string{"gob", "csv", "json"}
+	if idx%25 == 7 {
+		// bytes in none of the three encodings, arriving on a pipe: the commands must refuse them
+		junk := [][]byte{[]byte("not a result stream\n"), {0xff, 0xfe, 0x00, 0x01}, []byte("1,2,3\n"), []byte("{\"x\":"), []byte("\n\n")}[rng.Intn(5)]
+		sub := []string{"encode", "report", "plot"}[rng.Intn(3)]
+		out, err := runCLI(junk, sub)
+		var c Case
+		w := &c.W
+		w.Z(3)
+		w.Bool(err != nil)
+		w.I(len(out))
+		c.Tag = "junk.stdin;nt"
+		c.Dist = "junk on stdin/" + sub
+		c.Sample = map[string]interface{}{"command": sub, "stdin": fmt.Sprintf("%q", junk), "refused": err != nil, "bytes_written": len(out)}
+		return []Case{c}
+	}
 	if idx%5 == 4 {
 		// transcoding chain through the real CLI
 		n := 1 + rng.Intn(8)
